@@ -4,12 +4,16 @@
 // Op lines of one case:
 //
 //	build <spec>                         recipe; exec builds the DAG with boxo's importer/directory code -> "ok"
+//	tree <dump>                          block-level dump of the WHOLE tree with one label per distinct CID (gen);
+//	                                     exec requires equality -> "ok blocks=<n>"; the model parses it
 //	file <k> <seghex,..> <dump>          block-level dump (sizes + labels) of the file at that path, made by gen
 //	                                     with the same code; exec requires equality -> "ok size=<n> ws=true"
 //	range <hex of entity-bytes string>   gateway.NewDagByteRange                      -> "ok <from> <to|*>" | "err"
 //	car f<k> <scope> <rangehex|-> <dups> CAR request for file k through the HTTP handler
-//	                                     -> "ok <labels of file blocks in the CAR>" | "stream-error <labels>" | "http-<code>"
-//	card <seghex,..|-> <scope> <rangehex|-> <dups> <expect>   CAR request for a directory / symlink / missing path -> "ok" | "http-<code>"
+//	                                     -> "ok <labels of ALL blocks in the CAR>" | "stream-error <labels>" | "http-<code>"
+//	card <seghex,..|-> <scope> <rangehex|-> <dups>   CAR request for a directory / symlink / missing path
+//	                                     -> "ok <labels>" | "absent <labels>" (missing path) | "http-<code>"
+//	path segments are <namehex>:<murmur3hex> joined by ","
 //	raw <seghex,..|->                    raw block request                              -> "ok" | "http-<code>"
 //
 // Everything else (hashes, root, offline sufficiency, duplicates) is checked by the monitor.
@@ -24,6 +28,7 @@ import (
 	"net/http"
 	"net/http/httptest"
 	"net/url"
+	"os"
 	"sort"
 	"strconv"
 	"strings"
@@ -51,6 +56,7 @@ import (
 	car "github.com/ipld/go-car/v2"
 	dagpb "github.com/ipld/go-codec-dagpb"
 	"github.com/prometheus/client_golang/prometheus"
+	"github.com/spaolacci/murmur3"
 
 	"verifharness/vh"
 )
@@ -120,6 +126,7 @@ type world struct {
 	uniq    int
 	root    *lnode
 	files   map[int]*fileInfo
+	labels  map[string]int // global: cid -> label, over the whole tree
 }
 
 type fileInfo struct {
@@ -281,13 +288,135 @@ func dumpFile(ctx context.Context, dag ipld.DAGService, c cid.Cid, labels map[st
 	return int(fsn.FileSize()), nil
 }
 
+func hashOf(name string) []byte {
+	h := murmur3.New64()
+	h.Write([]byte(name))
+	return h.Sum(nil)
+}
+
+func hexNat(b []byte) string {
+	s := strings.TrimLeft(fmt.Sprintf("%x", b), "0")
+	if s == "" {
+		return "0"
+	}
+	return s
+}
+
+func label(labels map[string]int, c cid.Cid) int {
+	l, ok := labels[c.KeyString()]
+	if !ok {
+		l = len(labels)
+		labels[c.KeyString()] = l
+	}
+	return l
+}
+
+// dumpTree: the whole DAG, block by block (merkledag/unixfs decoding), one label per distinct CID.
+//
+//	F <lbl> <raw01> <file tree as in dumpFile> | S <lbl> | D <lbl> <n> (<namehex> node)^n | H <lbl> <fanout> <bfhex> shard
+//	shard ::= <n> ( v <linknamehex> <murmur3hex> node | t <linknamehex> <lbl> <fanout> <bfhex> shard )^n
+func dumpTree(ctx context.Context, dag ipld.DAGService, c cid.Cid, labels map[string]int, out *[]string) error {
+	if c.Prefix().Codec == cid.Raw {
+		*out = append(*out, "F", strconv.Itoa(label(labels, c)), "1")
+		_, err := dumpFile(ctx, dag, c, labels, out)
+		return err
+	}
+	nd, err := dag.Get(ctx, c)
+	if err != nil {
+		return err
+	}
+	pn, ok := nd.(*merkledag.ProtoNode)
+	if !ok {
+		return fmt.Errorf("not a protonode")
+	}
+	fsn, err := ft.FSNodeFromBytes(pn.Data())
+	if err != nil {
+		return err
+	}
+	switch fsn.Type() {
+	case ft.TFile, ft.TRaw:
+		*out = append(*out, "F", strconv.Itoa(label(labels, c)), "0")
+		_, err := dumpFile(ctx, dag, c, labels, out)
+		return err
+	case ft.TSymlink:
+		*out = append(*out, "S", strconv.Itoa(label(labels, c)))
+	case ft.TDirectory:
+		*out = append(*out, "D", strconv.Itoa(label(labels, c)), strconv.Itoa(len(pn.Links())))
+		for _, l := range pn.Links() {
+			*out = append(*out, vh.Hex([]byte(l.Name)))
+			if err := dumpTree(ctx, dag, l.Cid, labels, out); err != nil {
+				return err
+			}
+		}
+	case ft.THAMTShard:
+		*out = append(*out, "H", strconv.Itoa(label(labels, c)), strconv.FormatUint(fsn.Fanout(), 10), hexNat(fsn.Data()))
+		return dumpShard(ctx, dag, pn, fsn, labels, out)
+	default:
+		return fmt.Errorf("unexpected unixfs type %v", fsn.Type())
+	}
+	return nil
+}
+
+func dumpShard(ctx context.Context, dag ipld.DAGService, pn *merkledag.ProtoNode, fsn *ft.FSNode, labels map[string]int, out *[]string) error {
+	pad := len(fmt.Sprintf("%X", fsn.Fanout()-1))
+	*out = append(*out, strconv.Itoa(len(pn.Links())))
+	for _, l := range pn.Links() {
+		if len(l.Name) == pad {
+			ch, err := dag.Get(ctx, l.Cid)
+			if err != nil {
+				return err
+			}
+			cpn, ok := ch.(*merkledag.ProtoNode)
+			if !ok {
+				return fmt.Errorf("child shard is not a protonode")
+			}
+			cfsn, err := ft.FSNodeFromBytes(cpn.Data())
+			if err != nil {
+				return err
+			}
+			*out = append(*out, "t", vh.Hex([]byte(l.Name)), strconv.Itoa(label(labels, l.Cid)), strconv.FormatUint(cfsn.Fanout(), 10), hexNat(cfsn.Data()))
+			if err := dumpShard(ctx, dag, cpn, cfsn, labels, out); err != nil {
+				return err
+			}
+		} else {
+			key := ""
+			if len(l.Name) > pad {
+				key = l.Name[pad:]
+			}
+			*out = append(*out, "v", vh.Hex([]byte(l.Name)), vh.Hex(hashOf(key)))
+			if err := dumpTree(ctx, dag, l.Cid, labels, out); err != nil {
+				return err
+			}
+		}
+	}
+	return nil
+}
+
+// labels of all blocks of a CAR, sorted, unique; a block that is not part of the tree at all prints as -1
+func (w *world) carLabels(res *carResult) []int {
+	set := map[int]bool{}
+	for _, b := range res.blocks {
+		if l, ok := w.labels[b.Cid().KeyString()]; ok {
+			set[l] = true
+		} else {
+			set[-1] = true
+		}
+	}
+	var ls []int
+	for l := range set {
+		ls = append(ls, l)
+	}
+	sort.Ints(ls)
+	return ls
+}
+
 func segsTok(segs []string) string {
 	if len(segs) == 0 {
 		return "-"
 	}
 	hs := make([]string, len(segs))
 	for i, s := range segs {
-		hs[i] = vh.Hex([]byte(s))
+		hs[i] = vh.Hex([]byte(s)) + ":" + vh.Hex(hashOf(s))
 	}
 	return strings.Join(hs, ",")
 }
@@ -298,7 +427,7 @@ func parseSegsTok(t string) []string {
 	}
 	var segs []string
 	for _, h := range strings.Split(t, ",") {
-		segs = append(segs, string(vh.UnHex(h)))
+		segs = append(segs, string(vh.UnHex(strings.SplitN(h, ":", 2)[0])))
 	}
 	return segs
 }
@@ -479,6 +608,13 @@ func gen(r *vh.Rand, tier string, n int, emit func(vh.Case)) {
 		}
 		c := vh.Case{ID: strconv.Itoa(i)}
 		c.Ops = append(c.Ops, "build "+strings.Join(st, " "))
+		{
+			var tt []string
+			if err := dumpTree(w.ctx, w.dag, rootL.cid, map[string]int{}, &tt); err != nil {
+				panic(fmt.Sprintf("gen: tree dump failed: %v", err))
+			}
+			c.Ops = append(c.Ops, "tree "+strings.Join(tt, " "))
+		}
 		var ps []pth
 		allPaths(root, nil, &ps)
 		var files, others []pth
@@ -533,6 +669,9 @@ func gen(r *vh.Rand, tier string, n int, emit func(vh.Case)) {
 		}
 		for q, nq := 0, cr.Range(1, 4); q < nq; q++ {
 			c.Ops = append(c.Ops, "range "+strTok(genRange(cr, cr.Intn(100))))
+		}
+		if cr.Chance(1, 5) {
+			c.Ops = append(c.Ops, "probe")
 		}
 		emit(c)
 	}
@@ -815,6 +954,19 @@ func exec(c vh.Case, o *vh.Out) {
 			}
 			w.root = ln
 			o.Emit("ok")
+		case "tree":
+			var tt []string
+			labels := map[string]int{}
+			if err := dumpTree(w.ctx, w.dag, w.root.cid, labels, &tt); err != nil {
+				o.Emit("dump-error")
+				continue
+			}
+			if strings.Join(tt, " ") != strings.Join(f[1:], " ") {
+				o.Emit("dump-mismatch")
+				continue
+			}
+			w.labels = labels
+			o.Emit("ok blocks=%d", len(labels))
 		case "file":
 			k := vh.Atoi(f[1])
 			segs := parseSegsTok(f[2])
@@ -868,6 +1020,21 @@ func exec(c vh.Case, o *vh.Out) {
 			} else {
 				o.Emit("ok %d *", br.From)
 			}
+		case "probe":
+			// trustless-gateway probe: the empty identity CID as a raw block, answered without the backend
+			req := httptest.NewRequest(http.MethodGet, "http://example.com/ipfs/"+gateway.EmptyIdentityCIDString+"?format=raw", nil)
+			rec := httptest.NewRecorder()
+			w.handler.ServeHTTP(rec, req)
+			if rec.Code != 200 {
+				o.Emit("http-%d", rec.Code)
+				o.Fail("probe-failed", "HTTP %d", rec.Code)
+				continue
+			}
+			if rec.Body.Len() != 0 {
+				o.Fail("raw-body-hash-mismatch", "empty identity block answered with %d bytes", rec.Body.Len())
+			}
+			o.Kind("probe")
+			o.Emit("ok")
 		case "raw":
 			segs := parseSegsTok(f[1])
 			t := followL(w.root, segs)
@@ -935,7 +1102,7 @@ func exec(c vh.Case, o *vh.Out) {
 			w.checkCar(o, what, fi.segs, fi.node, scope, rng, dups, res)
 			if res.streamErr != "" || res.truncated {
 				o.Kind("car-stream-error")
-				o.Emit("stream-error %s", labelsStr(ls))
+				o.Emit("stream-error %s", labelsStr(w.carLabels(res)))
 				// monitor: a stream error is acceptable only when the requested window is empty/inverted
 				n := int64(len(fi.node.content))
 				satisfiable := true
@@ -948,7 +1115,7 @@ func exec(c vh.Case, o *vh.Out) {
 				}
 				continue
 			}
-			o.Emit("ok %s", labelsStr(ls))
+			o.Emit("ok %s", labelsStr(w.carLabels(res)))
 		case "card":
 			segs := parseSegsTok(f[1])
 			scope, rng, dups := f[2], f[3], f[4]
@@ -969,7 +1136,7 @@ func exec(c vh.Case, o *vh.Out) {
 				// (blocks traversed up to the missing link). Monitor: hashes, and the absence is
 				// verifiable offline (ErrNoLink, not a missing block).
 				o.Kind("card-missing-path")
-				o.Emit("ok")
+				o.Emit("absent %s", labelsStr(w.carLabels(res)))
 				if res.decodeErr != nil || res.truncated {
 					o.Fail("car-undecodable", "%s: %v", what, res.decodeErr)
 					continue
@@ -998,7 +1165,10 @@ func exec(c vh.Case, o *vh.Out) {
 			}
 			o.Kind(fmt.Sprintf("card-%c-%s", t.kind, scope))
 			w.checkCar(o, what, segs, t, scope, "-", dups, res)
-			o.Emit("ok")
+			if t.kind == 'D' && len(w.carLabels(res)) >= 3 && scope == "entity" {
+				o.Kind("hamt-entity-multi-shard")
+			}
+			o.Emit("ok %s", labelsStr(w.carLabels(res)))
 		default:
 			o.Emit("bad-op")
 		}
@@ -1038,4 +1208,26 @@ func unTokOrDash(t string) string {
 
 var _ = errors.New
 
-func main() { vh.Main(vh.Config{Gen: gen, Exec: exec}) }
+func main() {
+	// helper for hand-written corpus files: `hx dumpspec <spec tokens>` prints the build and tree lines
+	if len(os.Args) > 2 && os.Args[1] == "dumpspec" {
+		s, _ := parseSpec(os.Args[2:])
+		w := newWorld()
+		_, ln, err := w.build(s)
+		if err != nil {
+			panic(err)
+		}
+		var tt []string
+		if err := dumpTree(w.ctx, w.dag, ln.cid, map[string]int{}, &tt); err != nil {
+			panic(err)
+		}
+		fmt.Println("build " + strings.Join(os.Args[2:], " "))
+		fmt.Println("tree " + strings.Join(tt, " "))
+		return
+	}
+	if len(os.Args) > 2 && os.Args[1] == "segtok" { // `hx segtok <name>...` prints the path token
+		fmt.Println(segsTok(os.Args[2:]))
+		return
+	}
+	vh.Main(vh.Config{Gen: gen, Exec: exec})
+}
